@@ -19,6 +19,9 @@ let rec decstr_of_n n =
       go (N.div n (n_of_int 10)); Buffer.add_char buf (Char.chr (48 + int_of_n (N.modulo n (n_of_int 10)))) end in
     go n; Buffer.contents buf end
 
+let z_of_int i = if i = 0 then Z0 else if i > 0 then Zpos (pos_of_int i) else Zneg (pos_of_int (-i))
+let int_of_z = function Z0 -> 0 | Zpos p -> int_of_pos p | Zneg p -> - (int_of_pos p)
+
 let hexval c = match c with '0'..'9' -> Char.code c - 48 | 'a'..'f' -> Char.code c - 87 | 'A'..'F' -> Char.code c - 55 | _ -> failwith "hex"
 let str_of_hex s =
   if s = "-" then [] else
